@@ -2,6 +2,7 @@
 """Prints the markdown table of /verif/seeded/*/meta.json (DESIGN.md section 0.4)."""
 import json, glob, os
 rows = []
+notes = json.load(open(os.path.join(os.path.dirname(os.path.abspath(__file__)), "..", "seeded", "NOTES.json")))
 for f in sorted(glob.glob(os.path.join(os.path.dirname(os.path.abspath(__file__)), "..", "seeded", "*", "meta.json"))):
     d = json.load(open(f))
     det = ", ".join(d.get("detected_by") or []) or "**none**"
@@ -13,8 +14,8 @@ for f in sorted(glob.glob(os.path.join(os.path.dirname(os.path.abspath(__file__)
     key = ""
     if "key=" in first:
         key = first.split("key=")[1].split(" ")[0]
-    note = d.get("note", "")
-    rows.append(f"| {d['id']} | {d['property']} | {(d.get('summary') or '')[:150].replace('|', '/')} | {conf} | {det} | `{key}` {note} |")
-print("| Seed | Property | Change (abridged) | Confirmed | Caught by (quick tier) | First violation key / note |")
+    note = notes.get(d["id"], "")
+    rows.append(f"| {d['id']} | {(d.get('summary') or '')[:170].replace('|', '/')} | {conf} | {det} | `{key}` | {note} |")
+print("| Seed | Change (abridged) | Confirmed | Caught by (quick tier) | First violation key | Note |")
 print("|---|---|---|---|---|---|")
 print("\n".join(rows))
